@@ -34,6 +34,9 @@ pub struct ProcPlan {
     pub clock: Option<i64>,
     /// varies the scratch location (part of the environment for C10)
     pub scratch_tag: String,
+    /// extra environment variables of the child process
+    #[serde(default)]
+    pub env: Vec<(String, String)>,
 }
 
 #[derive(Clone, Debug, PartialEq, Eq, Serialize, Deserialize)]
@@ -172,6 +175,9 @@ pub fn run_proc(plan: &ProcPlan, verif: &str) -> ProcRecord {
     if let Some(c) = plan.clock {
         cmd.env("SHIM_CLOCK", c.to_string());
     }
+    for (k, v) in &plan.env {
+        cmd.env(k, v);
+    }
     unsafe {
         cmd.pre_exec(|| {
             let cpu = libc::rlimit { rlim_cur: 60, rlim_max: 65 };
@@ -278,7 +284,7 @@ pub fn proc_replay(prop: &str, seed: u64, run: u64, v: Violation, plan: ProcPlan
         seed,
         run,
         violation: v,
-        plan: crate::plan::SimPlan { jobs: vec![], faults: vec![], threads: vec![], schedule: vec![], sched_seed: None, switch_16: 0, clock: vec![], lib_pass: false, all_formats: false, realfs: false },
+        plan: crate::plan::SimPlan { jobs: vec![], faults: vec![], threads: vec![], schedule: vec![], sched_seed: None, switch_16: 0, clock: vec![], lib_pass: false, all_formats: false, realfs: false, env: vec![] },
         c14: None,
         proc: Some(plan),
         minimised: false,
